@@ -345,7 +345,7 @@ func run(rr *mon.Run) {
 	defer runtime.GOMAXPROCS(runtime.NumCPU())
 	kinds := []string{"tunnel", "router", "group-tunnel", "group-router", "tunnel-real-socket", "group-tunnel-real-socket"}
 	rng := rand.New(rand.NewSource(r.Seed()*3331 + 5))
-	reps := r.Pick(1, 25)
+	reps := r.Pick(1, 10)
 	base := uint32(1000)
 	for rep := 0; rep < reps; rep++ {
 		for ki, kind := range kinds {
@@ -396,7 +396,7 @@ func run(rr *mon.Run) {
 			// stress: many back-to-back bursts of 64 against a reader that is always
 			// ready or pauses after every few telegrams: the windows in which a hand-over
 			// can overtake a queued telegram are a few instructions wide
-			for i := 0; i < r.Pick(4000, 60000); i++ {
+			for i := 0; i < r.Pick(4000, 8000); i++ {
 				one(64, []string{"ready-fast", "bursty-fast"}[i%2], 0, false)
 			}
 			c.close()
